@@ -638,6 +638,11 @@ DRV_OP(OpOssOp, "oss.op") {
       out["ret"] = true;
     } else if (k == "reload") {
       // save the operation schema, drop it, load the document with the items in another order
+      for (const auto& pict : *w.schema) {   // the user saves every open document before saving the operation schema
+        if (auto* d = DocOf(pict.uid, false); d != nullptr) {
+          mgr.TriggerSave(*d);
+        }
+      }
       OJSON doc = *w.schema;
       std::mt19937 gen{ a.value("seed", 1U) };
       auto& items = doc["items"];
